@@ -296,4 +296,31 @@ def State.postnatalOK (s : State) : Bool :=
   s.post.all (fun e => (getA s.agents e.p2).parent == some e.p1 &&
     !((getA s.agents e.p1).pregnant && (getA s.agents e.p1).child == some e.p2))
 
+/-! ### observable summary (examples, driver) -/
+
+structure Row where
+  fecund : Bool
+  pregnant : Bool
+  postpartum : Bool
+  child : Option Nat
+  parent : Option Nat
+  age : Rat
+  deriving DecidableEq, Repr
+
+structure Summary where
+  rows : List Row
+  pre : List (Nat × Nat × Rat × Rat)      -- (mother, child, beta, end)
+  post : List (Nat × Nat × Rat × Rat)
+  invariants : Bool
+  deriving DecidableEq, Repr
+
+def State.allOK (s : State) : Bool := s.exclusive && s.linksOK && s.pregnantOK && s.prenatalOK && s.postnatalOK
+
+def summarize (r : Except Err State) : Option Summary :=
+  match r with
+  | .error _ => none
+  | .ok s => some { rows := s.agents.map (fun a => ⟨a.fecund, a.pregnant, a.postpartum, a.child, a.parent, a.age⟩),
+                    pre := s.pre.map (fun e => (e.p1, e.p2, e.beta, e.stop)),
+                    post := s.post.map (fun e => (e.p1, e.p2, e.beta, e.stop)), invariants := s.allOK }
+
 end StarsimModel.Pregnancy
